@@ -73,6 +73,10 @@ class DequeApi:
                 return R('true' if r is True else 'false' if r is False else 'weird')
         except (IndexError, ValueError, KeyError, TypeError) as exc:
             return R(type(exc).__name__)
+        except MachineryError:
+            raise
+        except Exception as exc:        # any other failure of the library is a result the specification judges
+            return R(type(exc).__name__)
         raise MachineryError('unknown deque op %r' % name)
 
 
@@ -102,6 +106,9 @@ def run_seq(ops, maxlen, impl='diskcache', via='Deque', seed=0, tid=1):
             extra.append(dj)
         else:
             d = diskcache.Deque(directory=os.path.join(root, 'd'), maxlen=mx(maxlen))
+        if impl != 'stdlib':
+            # a Deque never loses items to eviction, whatever the size limit of its cache
+            d.cache.reset('size_limit', 150 * 1024)
         ev = []
         cur = maxlen
         for op in ops:
